@@ -32,6 +32,7 @@ CONSTANTS Deviations,      \* implementation model: subset of AllDevs
           Worlds,          \* which input signatures are explored
           Rich,            \* bigger menus
           NumIter,         \* num_iterations of optimize()
+          EarlyStop,       \* stop_if_no_change of optimize()
           Sim,             \* TRUE (only with -simulate): every menu choice is drawn at random instead of enumerated
           Fine,            \* TRUE: one optimizer step per visited node; FALSE: one step per pass
           Mutant           \* "none", or a seeded defect of the DESIGN (shows that the invariants can fail)
@@ -210,7 +211,7 @@ UnOps0 == IF Rich THEN {"Neg", "Abs", "Relu", "Identity", "Dropout"} ELSE {"Neg"
 UnOps == PickN(6, UnOps0)
 AddUnary == /\ CanAdd
             /\ \E a \in PrimF, op \in UnOps : TryAdd(<<>>, <<>>, <<N1(op, <<a>>, vN)>>)
-AddDropoutMask == /\ CanAdd /\ Rich
+AddDropoutMask == /\ CanAdd /\ Rich /\ (Sim => rnd % 4 = 0)
                   /\ \E a \in PrimF : TryAdd(<<>>, <<>>, <<Nd("Dropout", <<a>>, <<vN, "m" \o Str(NextId(m0))>>, NoAt, <<>>)>>)
 AddCast == /\ CanAdd
            /\ \E a \in Prim, to \in {"i64", "f32"} :
@@ -227,7 +228,7 @@ AddTranspose == /\ CanAdd
 BinCMenu0 ==
    IF Rich THEN {<<op, t, k>> : op \in PickN(9, {"Add", "Sub", "Mul", "Min", "Max"}), t \in PickN(10, {FS(0), FS(1), FS(-1), FS(2), FV(<<0>>), FV(<<1>>)}), k \in PickN(11, CKindsAll)}
    ELSE {<<"Add", FS(0), "init">>, <<"Add", FS(0), "ovr">>, <<"Mul", FS(1), "cnode">>,
-         <<"Min", FS(1), "init">>, <<"Max", FS(0), "init">>, <<"Max", FS(2), "cnode">>, <<"Mul", FS(2), "iexpr">>}
+         <<"Min", FS(1), "init">>, <<"Max", FS(0), "init">>, <<"Max", FS(2), "cnode">>, <<"Mul", FS(2), "iexpr">>, <<"Sub", FS(1), "oexpr">>}
 BinCMenu == PickN(12, BinCMenu0)
 AddBinConst == /\ CanAdd
                /\ \E a \in PrimF, e \in BinCMenu, flip \in BOOLEAN :
@@ -498,7 +499,7 @@ ClearUnused(G, names, C, gh) ==
 
 DropKeys(f, names) == [kk \in (DOMAIN f) \ names |-> f[kk]]
 Splice(nodes, k, new) == SubSeq(nodes, 1, k - 1) \o new \o SubSeq(nodes, k + 1, Len(nodes))
-Log(S, tag) == [S EXCEPT !.log = Append(@, tag)]
+Log(S, tag) == [S EXCEPT !.log = Append(@, tag), !.mod = TRUE]        \* every logged decision modifies the model
 
 \* visit_graph's tail: a graph output that is known to equal another value of this graph is replaced by it
 RECURSIVE OutRep(_, _, _)
@@ -536,7 +537,7 @@ VisitNode(G, k, S, C) ==
        \* node-level inference is given const_value of small constant inputs as data - also of overridable defaults
        infUsed == IF inf # <<>> /\ n.op \in {"Reshape", "Expand", "Unsqueeze", "Squeeze"} /\ n.ins[2] \in C.ovr /\ ~IsErr(CVf(n.ins[2]))
                   THEN {"overridable_read_as_const"} ELSE {}
-       S1 == [S EXCEPT !.ty = ty1c, !.used = @ \cup infUsed]
+       S1 == [S EXCEPT !.ty = ty1c, !.used = @ \cup infUsed, !.mod = @ \/ n # n0]
        TY1(nm) == TyGet(ty1c, nm)
        pe == PE(n, S1, TY1, CVf, C)
        foldable == /\ n.op \notin {"Constant", "If", "ConstantOfShape"} /\ Len(n.outs) = 1 /\ Len(n.ins) > 0
@@ -717,18 +718,23 @@ RewriteNode(G, k, S, C) ==
 -----------------------------------------------------------------------------
 (* the remaining passes, each on the whole model *)
 RemoveAtSeq(sq, i) == SubSeq(sq, 1, i - 1) \o SubSeq(sq, i + 1, Len(sq))
-RECURSIVE DceFrom(_, _, _, _)
+RECURSIVE DceFrom(_, _, _, _), DceSubs(_, _, _)
+\* returns [nodes, gh]: a removed node's nested graphs keep referring to the values they captured (value.uses() stays non-empty)
+DceSubs(subs, j, gh) == IF j > Len(subs) THEN [subs |-> subs, gh |-> gh]
+                        ELSE LET r == DceFrom(subs[j].nodes, Len(subs[j].nodes), subs[j].outs, gh)
+                             IN DceSubs([subs EXCEPT ![j] = [subs[j] EXCEPT !.nodes = r.nodes]], j + 1, r.gh)
 DceFrom(nodes, k, outs, gh) ==
-   IF k = 0 THEN nodes
+   IF k = 0 THEN [nodes |-> nodes, gh |-> gh]
    ELSE LET n == nodes[k]
             dead == \A i \in 1..Len(n.outs) : n.outs[i] \notin SeqToSet(outs) /\ Uses(nodes \o gh, n.outs[i]) = 0
-        IN IF dead THEN DceFrom(RemoveAtSeq(nodes, k), k - 1, outs, gh)
+        IN IF dead THEN DceFrom(RemoveAtSeq(nodes, k), k - 1, outs, IF n.sub = <<>> THEN gh ELSE gh \o n.sub[1].nodes \o n.sub[2].nodes)
            ELSE LET trimmed == IF n.op = "Dropout" /\ Len(n.outs) = 2 /\ n.outs[2] \notin SeqToSet(outs) /\ Uses(nodes \o gh, n.outs[2]) = 0 THEN <<n.outs[1]>> ELSE n.outs
-                    n2 == [n EXCEPT !.outs = trimmed,
-                                    !.sub = [j \in 1..Len(n.sub) |-> [n.sub[j] EXCEPT !.nodes = DceFrom(n.sub[j].nodes, Len(n.sub[j].nodes), n.sub[j].outs, gh)]]]
-                IN DceFrom([nodes EXCEPT ![k] = n2], k - 1, outs, gh)
-DcePass(G, gh) == LET ns == DceFrom(G.nodes, Len(G.nodes), G.outs, gh)
-              IN [G EXCEPT !.nodes = ns, !.inits = SelectSeq(G.inits, LAMBDA x : Uses(ns \o gh, x.name) > 0 \/ x.name \in SeqToSet(G.outs))]
+                    rs == DceSubs(n.sub, 1, gh)
+                    n2 == [n EXCEPT !.outs = trimmed, !.sub = rs.subs]
+                IN DceFrom([nodes EXCEPT ![k] = n2], k - 1, outs, rs.gh)
+DcePass(G, gh) == LET r == DceFrom(G.nodes, Len(G.nodes), G.outs, gh)
+                  IN [G |-> [G EXCEPT !.nodes = r.nodes, !.inits = SelectSeq(G.inits, LAMBDA x : Uses(r.nodes \o r.gh, x.name) > 0 \/ x.name \in SeqToSet(G.outs))],
+                      gh |-> r.gh]
 \* LiftConstantsToInitializersPass(lift_all_constants, size_limit 0): in every graph; not when the Constant is a graph output
 RECURSIVE LiftC(_)
 LiftC(G) ==
@@ -797,8 +803,15 @@ Init == /\ stage = "build"
         /\ gr = <<>> /\ st = <<>>
         /\ rnd \in (IF Sim THEN 1..997 ELSE {0})
 \* graph outputs: the last value; optionally a second output: an earlier value, an initializer, the graph input x
-ExtraOuts == LET s == m0.main IN
-   IF Rich THEN {s[j] : j \in 1..(Len(s) - 1)} \cup {m0.inits[i].name : i \in 1..Len(m0.inits)} \cup {"x"} ELSE {}
+ExtraOuts == LET s == m0.main
+                 earlier == {s[j] : j \in 1..(Len(s) - 1)}
+                 ini == {m0.inits[i].name : i \in 1..Len(m0.inits)}
+                 k == (rnd + Len(m0.nodes)) % 10
+                 \* slim menus: an initializer whose only consumer is a foldable node may also be returned directly
+                 folded == {nm \in ini : \E j \in 1..Len(m0.nodes) : m0.nodes[j].op = "Neg" /\ m0.nodes[j].ins = <<nm>>}
+             IN IF ~Rich THEN folded
+                ELSE IF ~Sim THEN earlier \cup ini \cup {"x"}
+                ELSE IF k < 5 THEN {} ELSE IF k < 8 THEN earlier ELSE IF k = 8 THEN ini ELSE {"x"}
 RECURSIVE SubTy(_)
 SubTy(nodes) == IF nodes = <<>> THEN EmptyF
                 ELSE LET n == Head(nodes)
@@ -812,15 +825,18 @@ InitTy(m) == [nm \in {m.ins[i].name : i \in 1..Len(m.ins)} |-> LET r == m.ins[CH
 \* keeps the input's declaration
 OutTy(m, ex) == LET I == {i \in 1..Len(m.outs) : m.outs[i] \notin {m.ins[j].name : j \in 1..Len(m.ins)}}
                 IN [nm \in {m.outs[i] : i \in I} |-> LET v == ex[CHOOSE i \in I : m.outs[i] = nm] IN [dt |-> v.dt, sh |-> Unknowns(Len(v.shape))]]
-St0(m, mode, ex) == [mode |-> mode, pc |-> 1, iter |-> 1, sym |-> EmptyF, ty |-> OutTy(m, ex) @@ InitTy(m), fresh |-> 1, used |-> {}, raised |-> "", log |-> <<>>, ghost |-> <<>>]
+St0(m, mode, ex) == [mode |-> mode, pc |-> 1, iter |-> 1, sym |-> EmptyF, ty |-> OutTy(m, ex) @@ InitTy(m), fresh |-> 1, used |-> {}, raised |-> "", log |-> <<>>, ghost |-> <<>>, mod |-> FALSE]
 FeedsOf(m) == [k \in 1..(IF OvrNames(m) = {} THEN NP ELSE NP + 1) |-> IF k <= NP THEN WFeeds(wd)[k] ELSE OvrFeed(m, wd)]
 Finish == /\ stage = "build" /\ Len(m0.main) >= 1
-          /\ \E extra \in PickN(29, {""} \cup ExtraOuts) :
+          /\ \E extra \in (IF Sim /\ ExtraOuts # {} THEN PickN(29, ExtraOuts) ELSE {""} \cup ExtraOuts) :
                 LET outs == IF extra = "" THEN <<m0.main[Len(m0.main)]>> ELSE <<m0.main[Len(m0.main)], extra>>
                     m == [m0 EXCEPT !.outs = outs]
                     fs == FeedsOf(m)
                     ex == [k \in 1..Len(fs) |-> EvalModel(m, fs[k])]
-                IN /\ \A k \in 1..Len(fs) : \A i \in 1..Len(outs) : ~IsErr(ex[k][i])
+                    \* the runtime executes every node: all values must be defined on every probe (also under the overrides)
+                    allOK(k) == LET e == EvalSeq(m.nodes, 1, InitEnv(m.inits) @@ FeedEnv(m, fs[k]))
+                                IN \A j \in 1..Len(m.nodes) : \A i \in 1..Len(m.nodes[j].outs) : ~IsErr(Get(e, m.nodes[j].outs[i]))
+                IN /\ \A k \in 1..Len(fs) : allOK(k) /\ \A i \in 1..Len(outs) : ~IsErr(ex[k][i])
                    /\ m0' = m /\ gr' = m
                    /\ envs' = [feeds |-> fs, expect |-> ex]
                    /\ st' = St0(m, "impl", ex[1])
@@ -854,12 +870,14 @@ Raised == /\ stage \in {"fold", "rewrite"} /\ st.raised # ""
           /\ stage' = "done" /\ UNCHANGED <<gr, st>> /\ Keep
 \* remove_unused_nodes (inside RewritePass and as RemoveUnusedNodesPass), then the next iteration of the PassManager
 DCE == /\ stage = "rewrite" /\ st.pc > Len(gr.nodes) /\ st.raised = ""
-       /\ gr' = DcePass(gr, st.ghost)
-       /\ IF st.iter < NumIter THEN stage' = "fold" /\ st' = [st EXCEPT !.pc = 1, !.iter = @ + 1]
-                               ELSE stage' = "lift" /\ st' = [st EXCEPT !.pc = 1]
+       /\ LET r == DcePass(gr, st.ghost) IN
+          /\ gr' = r.G
+          \* PassManager(steps = num_iterations, early_stop): the DCE inside RewritePass is not reported as a modification
+          /\ IF st.iter < NumIter /\ (st.mod \/ ~EarlyStop) THEN stage' = "fold" /\ st' = [st EXCEPT !.pc = 1, !.iter = @ + 1, !.mod = FALSE, !.ghost = r.gh]
+                                                             ELSE stage' = "lift" /\ st' = [st EXCEPT !.pc = 1, !.ghost = r.gh]
        /\ Keep
 LiftConstants == /\ stage = "lift"
-                 /\ gr' = LiftC(DcePass(gr, st.ghost)) /\ stage' = "liftsub" /\ UNCHANGED st /\ Keep
+                 /\ gr' = LiftC(DcePass(gr, st.ghost).G) /\ stage' = "liftsub" /\ UNCHANGED st /\ Keep
 LiftSubgraphInits == /\ stage = "liftsub"
                      /\ gr' = LiftSub(gr) /\ stage' = "dedup" /\ UNCHANGED st /\ Keep
 DedupInits == /\ stage = "dedup"
@@ -912,5 +930,8 @@ NeverInlinesIf == stage \in OptStages => \A i \in 1..Len(st.log) : st.log[i] # "
 NeverFolds == stage \in OptStages => \A i \in 1..Len(st.log) : st.log[i] # "FoldByReference:c4"
 NeverFuses == stage \in OptStages => \A i \in 1..Len(st.log) : st.log[i] # "Rule:TransposeTranspose:v3"
 QuickWorlds == {"vec", "sym", "mat", "anon", "r3"}
+AnonWorld == {"anon"}
+R3World == {"r3"}
+VecWorld == {"vec"}
 NoDevs == {}
 =============================================================================
